@@ -17,6 +17,8 @@ empty string); a vector of items is one token `_item,item,…`.
   `fallreduce <OP> <f32|f64> b0 b1 …` -> the same wrappers on IEEE values given as hex bit patterns (`nan` canonical)
   `fprefix <f32|f64> b0 b1 …`       -> prefix_sum on IEEE values
   `ftree <OP> <f32|f64> b0 b1 …`    -> comm::all_reduce with the IEEE operator (nesting of the tree, not a fold)
+  `freered <fn> a0 … a_{n-1} | f0 … f_{n-1}` -> result per rank of the free function fn called on variables holding a_i at
+                                       the call and f_i after all outstanding asyncs (int64; flags 0/1 for logical_*)
   `issame t0 t1 …`                  -> is_same, one 0/1 per rank
   `typeof`                          -> `cty:DT:kind:bytes …`
   `prims <coll>`                    -> program of the collective, e.g. `barrier allreduce:SUM`
@@ -170,6 +172,20 @@ def handle (line : String) : String :=
     match op? o, f32s? vs with
     | some o, some (x0 :: rest) => " ".intercalate ((treeReduceL (opF32 o) x0 rest).map showF32)
     | _, _ => "bad-op"
+  | "freered" :: fn :: rest =>
+    match coll? fn, ints? (rest.takeWhile (· ≠ "|")), ints? ((rest.dropWhile (· ≠ "|")).drop 1) with
+    | some c, some atc, some fin =>
+      let xs := contributed c atc fin
+      match c with
+      | .sum => joinInts (allReduceOp (opInt .i64 .SUM) xs)
+      | .min => joinInts (allReduceOp (opInt .i64 .MIN) xs)
+      | .max => joinInts (allReduceOp (opInt .i64 .MAX) xs)
+      | .prefixSum => joinInts (prefixSum 0 (addTy .i64) xs)
+      | .logicalAnd => joinInts (allReduceOp (opInt .bool .LAND) xs)
+      | .logicalOr => joinInts (allReduceOp (opInt .bool .LOR) xs)
+      | .isSame => " ".intercalate ((isSame (· == ·) xs).map fun b => if b then "1" else "0")
+      | _ => "bad-op"
+    | _, _, _ => "bad-op"
   | "issame" :: vs => " ".intercalate ((isSame (· == ·) vs).map fun b => if b then "1" else "0")
   | ["typeof"] =>
     " ".intercalate (CTy.all.map fun t =>
